@@ -343,6 +343,25 @@ def run_missing(arg):
         restore(m, d, orig)
 
 
+def rerun():
+    """Survivors again, for the checks named in $CHECKS (those strengthened since the survivor was evaluated)."""
+    only = os.environ["CHECKS"].split(",")
+    ms = {m["id"]: m for m in load()}
+    have = done("checks.jsonl")
+    todo = []
+    for i, r in have.items():
+        if i in ms and not r["caught_by"]:
+            keep = {c: v for c, v in r["results"].items() if c not in only}
+            if any(c in only for c in checks_for(ms[i])):
+                todo.append((ms[i], keep))
+    print("to re-run:", len(todo), flush=True)
+    with open(os.path.join(OUT, "checks.jsonl"), "a") as fh, cf.ProcessPoolExecutor(int(os.environ.get("W", "4"))) as ex:
+        for mid, caught, res in ex.map(run_missing, todo):
+            fh.write(json.dumps({"id": mid, "caught_by": caught, "results": res}) + "\n")
+            fh.flush()
+    _cleanup()
+
+
 def recheck():
     """Survivors for which the file -> checks table has grown since they were evaluated: run the checks they lack."""
     ms = {m["id"]: m for m in load()}
@@ -397,4 +416,4 @@ def report():
 
 if __name__ == "__main__":
     os.environ.setdefault("MSW_TAG", str(os.getpid()))
-    {"gen": gen, "tests": tests, "checks": checks, "recheck": recheck, "report": report}[sys.argv[1]]()
+    {"gen": gen, "tests": tests, "checks": checks, "recheck": recheck, "rerun": rerun, "report": report}[sys.argv[1]]()
